@@ -104,6 +104,9 @@ def case_strategy(draw, maxdepth, odd=False, namings=("distinct", "distinct", "s
             src = typed._op(cx, "Select", src, f"lambda {v3}: {typed.gen(cx, typed.bind(env, v3, typed.EVT), typed.F, 1)}")
     elif k <= 6:
         src, et = typed.any_seq(cx, env, depth)
+        if draw(st.integers(0, 9)) == 0:
+            # the first operator is given its function BY NAME (a free name of the query, not a lambda): nothing to combine with
+            src, et = draw(st.sampled_from(["Select(ds, fn_id)", "Where(ds, fn_ok)", "Select(Where(ds, fn_ok), fn_id)"])), typed.EVT
         # make operator adjacency at the top level likely: stack 1-2 more operators on the result
         for _ in range(draw(st.integers(1, 2))):
             v = cx.fresh(env)
@@ -167,7 +170,7 @@ def semantic_check(case, r: Result, allow_index_error=False, total=False):
     from func_adl.ast.function_simplifier import FuncADLIndexError, simplify_chained_calls
 
     tree = ast.parse(case["src"], mode="eval").body
-    env = {"ds": schema.build(case["data"]), "k0": 1}
+    env = {"ds": schema.build(case["data"]), "k0": 1, "fn_id": lambda x_: x_, "fn_ok": lambda x_: True}
     try:
         expect = pyeval.materialise(pyeval.evaluate(tree, env, total))
     except Exception:  # python itself cannot evaluate the original (also: recursion limit): nothing is required
@@ -234,7 +237,7 @@ def compare_values(case, r: Result, tree, out, expect, total=False):
         return r.fail(f"unbound name(s) {sorted(extra)} introduced: {case['src']}  ==>  {unp(out)}")
     if expect is None:
         return r
-    env = {"ds": schema.build(case["data"]), "k0": 1}
+    env = {"ds": schema.build(case["data"]), "k0": 1, "fn_id": lambda x_: x_, "fn_ok": lambda x_: True}
     try:
         got = pyeval.materialise(pyeval.evaluate(out, env, total))
     except Exception as e:
